@@ -138,6 +138,8 @@ class Air(object):
         self.frames = []            # every Frame, in order of transmission
         self.step = None            # harness-defined protocol step id
         self.local = None           # LocalTarget handed to listen()
+        self.acm_device = False     # initiator device can sense in active mode
+        self.active = False         # activated in active communication mode
         self.late = 0               # target waits that outlasted their timeout
         self.unsolicited = 0        # target transmissions without a request
         self.foreign = None         # dict(kinds, tdid, frame_did, budget)
@@ -379,7 +381,28 @@ class IniClf(object):
         air = self.air
         air.sync_listen()
         if len(targets) == 1 and targets[0].atr_req is not None:
-            raise nfc.clf.UnsupportedTargetError("active communication mode")
+            if not air.acm_device:
+                raise nfc.clf.UnsupportedTargetError("active communication mode")
+            # active communication mode (as a driver's sense_dep): the
+            # ATR_REQ is sent in the initiator's own field at the technology
+            # of the target object, the ATR_RES comes back in the target's
+            tg = targets[0]
+            if air.local is None or tg.brty != '106A':
+                return None
+            air.active = True
+            air.brty = tg.brty
+            req = bytearray(tg.atr_req)
+            frame = bytearray([0xF0, len(req) + 1]) + req
+            try:
+                rsp = air.ini_exchange(frame, 1.0)
+            except nfc.clf.CommunicationError:
+                air.active = False
+                return None
+            if len(rsp) < 4 or rsp[0] != 0xF0 or rsp[1] != len(rsp) - 1:
+                air.active = False
+                return None
+            return nfc.clf.RemoteTarget(tg.brty, atr_req=req,
+                                        atr_res=bytearray(rsp[2:]))
         local = air.local
         if local is None:
             return None
@@ -469,7 +492,9 @@ class TgtClf(object):
                         result.atr_res = bytearray(target.atr_res)
                         if psl_req is not None:
                             result.psl_req = psl_req
-                        if tech == '106A':
+                        if air.active:
+                            pass        # no passive mode discovery happened
+                        elif tech == '106A':
                             result.sens_res = bytearray(target.sens_res)
                             result.sdd_res = bytearray(target.sdd_res)
                             result.sel_res = bytearray(target.sel_res)
